@@ -287,6 +287,11 @@ func c02Gen(c *engine.C) engine.Case {
 		{Path: "app/api/Notifier.java", Content: "package app.api;\n\npublic interface Notifier {\n    Object send();\n}\n"},
 		{Path: "app/api/Mailer.java", Content: "package app.api;\n\npublic class Mailer implements Notifier {\n    public Object send() {\n        return null;\n    }\n}\n"},
 	}
+	if c.Bool("own-package-declares-a-class-named-like-an-imported-one") {
+		// app.Tool next to the explicitly imported other.Tool: the single-type import decides what `Tool` means in Svc
+		c.Tag("same-simple-name-in-own-package")
+		files = append(files, FileSpec{Path: "app/Tool.java", Content: "package app;\n\npublic class Tool {\n    public Object use() {\n        return null;\n    }\n\n    public static Tool make() {\n        return null;\n    }\n}\n"})
+	}
 	return func() engine.Result { return c02Check(files, svc, c02Mode) }
 }
 
